@@ -16,12 +16,14 @@ Proof. apply inv02L_init. Qed.
 Lemma lx_init_noseized : NoSeized lx_init.
 Proof. split; reflexivity. Qed.
 
-Ltac hist_tac := cbn [hist_ok]; repeat split; try (intro; discriminate); vm_compute; try reflexivity; try (intro; discriminate).
+Ltac hist_tac := apply hist_okb_sound; vm_compute; reflexivity.
 
 Lemma lx_hist_a : hist_ok lx_cfg lx_lc lx_init lx_ops_a.
 Proof. unfold lx_ops_a. hist_tac. Qed.
 Lemma lx_hist_b : hist_ok lx_cfg lx_lc lx_init lx_ops_b.
 Proof. unfold lx_ops_b. hist_tac. Qed.
+Lemma lx_hist_c : hist_ok lx_cfg lx_lc lx_init lx_ops_c.
+Proof. unfold lx_ops_c. hist_tac. Qed.
 Lemma lx_hist_d : hist_ok lx_cfg lx_lc lx_init lx_ops_d.
 Proof. unfold lx_ops_d. hist_tac. Qed.
 
@@ -39,20 +41,22 @@ Proof.
 Qed.
 
 (* C01-F4: emergency shutdown while a seized vault is in auction.  When the auction is past its end time the
-   auctionsV2 BeginBlocker (class kf_C01_4) re-creates the vault from the auction's remainder without moving
-   the collateral back to custody and without closing the auction: after two blocks the owner's vault records
+   auctionsV2 BeginBlocker re-creates the vault from the auction's remainder (TriggerEsm) without moving the
+   collateral back to custody and without closing the auction: after two blocks the owner's vault records
    16000000 collateral (twice the 8000000 seized) and 22400000 debt, vault custody holds nothing, the auction
-   account still holds the 8000000 and the locked vault and the auction are still there *)
+   account still holds the 8000000 and the locked vault and the auction are still there.  The history meets
+   every hypothesis of the history theorem; the ghost-corrected identities hold, the plain ones do not *)
 Lemma esm_return_refuted :
-  exists c lc l0 ops, cfg_ok c /\ InvL c l0 /\
+  exists c lc l0 ops, cfg_ok c /\ InvL c l0 /\ hist_ok c lc l0 ops /\
     let l1 := lrun_all c lc (firstn 5 ops) l0 in
     let l := lrun_all c lc ops l0 in
-    hist_ok c lc l0 (firstn 5 ops) /\ nth 5 ops AucTick = AucTick /\ nth 6 ops AucTick = AucTick /\ length ops = 7%nat /\
+    nth 5 ops (Sweep []) = AucTick /\ nth 6 ops (Sweep []) = AucTick /\ length ops = 7%nat /\
     kf_C01_4 l1 true = true /\
     vaults (vs l) = [mkV 2 2 1 5 16000000 22400000 0 0] /\ bal (vs l) VAULT 1 = 0 /\ bal (vs l) AUC 1 = 8000000 /\
     zlen (lks l) = 1 /\ zlen (aus l) = 1 /\
-    c01l_custody c l 1 = false /\ c01l_coll l 1 5 = false /\ c01l_mint l 1 5 = false /\ holds_C01_life c [1; 2] l = false.
+    c01l_custody c l 1 = false /\ c01l_coll l 1 5 = false /\ c01l_mint l 1 5 = false /\ holds_C01_life c [1; 2] l = false /\
+    kf_C01_4_denom l 1 = true /\ kf_C01_4_prod l 1 5 = true /\ er_short l 1 = 16000000 /\ holds_C01_adj c [1; 2] l = true.
 Proof.
-  exists lx_cfg, lx_lc, lx_init, lx_ops_c. split; [exact lx_cfg_ok|]. split; [exact lx_init_inv|].
-  cbv zeta. split; [unfold lx_ops_c; cbn [firstn]; hist_tac|]. vm_compute. repeat split; reflexivity.
+  exists lx_cfg, lx_lc, lx_init, lx_ops_c. split; [exact lx_cfg_ok|]. split; [exact lx_init_inv|]. split; [exact lx_hist_c|].
+  vm_compute. repeat split; reflexivity.
 Qed.
